@@ -64,7 +64,10 @@ def gen_forest(rng, shape=None, siblings=True):
 
     def mk_unit(kind, idx):
         version = rng.choice([2, 3, 4, 4, 5, 5])
-        root = Die("partial_unit" if kind == "p" else "compile_unit", rand_attrs(rng, version, name=("%s%d.c" % (kind, idx)).encode()))
+        # a unit that is not a partial unit need not be a DW_TAG_compile_unit (type units, skeleton units): it is a unit like any other
+        # (DWARF 5 only: there the header says what kind of unit it is; in older versions libdw infers a type-unit header from the tag)
+        tag = "partial_unit" if kind == "p" else ("compile_unit" if (version < 5 or rng.random() < 0.75) else rng.choice(["type_unit", "skeleton_unit"]))
+        root = Die(tag, rand_attrs(rng, version, name=("%s%d.c" % (kind, idx)).encode()))
         if (shape == "empty" and rng.random() < 0.6) or (kind == "p" and rng.random() < 0.2):
             # root only; also partial units without children (their imports contribute nothing)
             if rng.random() < 0.5:
